@@ -2,7 +2,7 @@
   C12 — RwLock: writers exclusive; the lock is free again once all guards are dropped.
 
   All theorems (except the two labelled "pinned tree") are about `run (init n p) sched` of `Model/Sync/RwLock.lean`,
-  the model of rwlock.rs with the fixes F1a and F1b: every number `n` of threads/coroutines, clean (`p = false`) or
+  the model of rwlock.rs with the fixes F1a, F1b and F1c: every number `n` of threads/coroutines, clean (`p = false`) or
   poisoned (`p = true`) initial state, every finite schedule `sched` – every interleaving of the atomic steps of
   read / try_read / write / try_write / guard drops (with or without a panic unwinding through the write guard) /
   is_poisoned, with a cancellation `Env.abort` possible at every park (on the gate and on rlock).
@@ -87,20 +87,37 @@ theorem rwlock_rlock_sections_exclusive (n : Nat) (p : Bool) (sched : List (Nat 
 
 /-- **Guards are balanced (accounting)**: at every moment the reader count is exactly the number of read guards that exist
     (handed out inside `Ok` or inside `Poisoned`, not yet dropped) plus the readers between their `*r += 1` and their
-    return plus the guard drops that have not yet executed `*r -= 1` – plus `lostR`, the read-guard drops that were
-    *cancelled while blocked on rlock* (see `rwlock_drop_cancelled_leaks`). No guard is handed out without having been
-    counted, none is counted twice, every drop gives back exactly one. -/
+    return plus the guard drops that have not yet executed `*r -= 1`. No guard is handed out without having been counted,
+    none is counted twice, every drop gives back exactly one – also the drop of a cancelled coroutine
+    (`rwlock_drop_always_completes`; before fix F1c it did not: `rwlock_pinned_F1c_drop_cancelled_leaks`). -/
 theorem rwlock_guards_balanced (n : Nat) (p : Bool) (sched : List (Nat × Env)) :
     (run (init n p) sched).sh.r =
-      ((run (init n p) sched).sh.RG : Int) + (cntP n cntR (run (init n p) sched).pcs : Int) + ((run (init n p) sched).sh.lostR : Int) := by
+      ((run (init n p) sched).sh.RG : Int) + (cntP n cntR (run (init n p) sched).pcs : Int) := by
   have h := (inv_reach n p sched).rc
   have hn : (run (init n p) sched).n = n := by simpa [init] using run_n (init n p) sched
   rw [hn] at h
   exact h
 
+/-- **A read guard's drop always completes** (fix F1c: `read_unlock` takes rlock with cancellation disabled): the
+    `rlock.lock()` inside the drop is never on the cancel path of `Mutex::lock` – whatever cancels arrive (`Env.abort`,
+    `Env.abortIgnore`), each of its steps keeps it inside `lock()` or ends with the lock; it never ends the call without
+    the lock. So the stuck branch of the model's `rlk` step is unreachable and every drop reaches its `*r -= 1`. -/
+theorem rwlock_drop_always_completes (n : Nat) (p : Bool) (sched : List (Nat × Env)) (t : Nat) (ht : t < n) (q : Mutex.Pc)
+    (hp : (run (init n p) sched).pcs t = .rlk .dropR q) (e : Env) (rl' : Mutex.Sh) (q' : Mutex.Pc)
+    (hm : Mutex.tstep (run (init n p) sched).sh.rl t q (menvD e) = some (rl', q')) : q' ≠ .idle := by
+  have hk := lk_reach n p sched
+  have hn : (run (init n p) sched).n = n := by simpa [init] using run_n (init n p) sched
+  generalize run (init n p) sched = s at *
+  have hkt := hk t (by omega)
+  rw [hp] at hkt
+  have hok : okD q = true := hkt rfl
+  rcases okD_step _ _ _ _ _ _ hok (menvD_cases e) hm with h1 | h1
+  · rw [h1]; intro h; cases h
+  · intro h; rw [h] at h1; simp [okD] at h1
+
 /-- `*r -= 1` in `read_unlock` never underflows (on the pinned tree it did: `rwlock_pinned_F1a_underflow`) -/
 theorem rwlock_reader_count_never_underflows (n : Nat) (p : Bool) (sched : List (Nat × Env)) (t : Nat) (ht : t < n)
-    (hp : (run (init n p) sched).pcs t = .rlp .dropR) : 1 ≤ (run (init n p) sched).sh.r := by
+    (hp : (run (init n p) sched).pcs t = .rdec) : 1 ≤ (run (init n p) sched).sh.r := by
   have h := rwlock_guards_balanced n p sched
   have := cntP_pos_of n cntR (run (init n p) sched).pcs t ht (by rw [hp]; rfl)
   omega
@@ -183,13 +200,13 @@ theorem rwlock_no_stranded_free_half (n : Nat) (p : Bool) (sched : List (Nat × 
       rw [pR_at _ _ _ hu]; exact quiet_rpc _ (hq u (by omega))
 
 /-- **The lock is free again once all guards are dropped**: when nobody is inside a call, every guard that was handed out
-    (inside `Ok` or inside `Poisoned`, by read / write / try_read / try_write) has been dropped and no read-guard drop was
-    cancelled (`lostR = 0`, see `rwlock_drop_cancelled_leaks`), then the reader count is 0, the gate and rlock are free with
+    (inside `Ok` or inside `Poisoned`, by read / write / try_read / try_write) has been dropped – by threads, by coroutines, by
+    cancelled coroutines while their cancel unwinds –, then the reader count is 0, the gate and rlock are free with
     empty waiter queues – also after any history of poisoning, hand-overs and cancelled waiters – and a `try_write()` by any
     actor succeeds. -/
 theorem rwlock_free_after_all_dropped (n : Nat) (p : Bool) (sched : List (Nat × Env))
     (hq : ∀ t, t < n → (run (init n p) sched).pcs t = .idle)
-    (hR : (run (init n p) sched).sh.RG = 0) (hW : (run (init n p) sched).sh.WG = 0) (hL : (run (init n p) sched).sh.lostR = 0) :
+    (hR : (run (init n p) sched).sh.RG = 0) (hW : (run (init n p) sched).sh.WG = 0) :
     (run (init n p) sched).sh.r = 0 ∧
     (run (init n p) sched).sh.g.cnt = 1 ∧ (run (init n p) sched).sh.g.q = [] ∧
     (run (init n p) sched).sh.rl.cnt = 1 ∧ (run (init n p) sched).sh.rl.q = [] ∧
@@ -200,7 +217,7 @@ theorem rwlock_free_after_all_dropped (n : Nat) (p : Bool) (sched : List (Nat ×
   have hrc := h.rc
   have hc0 : cntP s.n cntR s.pcs = 0 := by
     apply cntP_zero_of; intro u hu; rw [hq u (by omega)]; rfl
-  have hr : s.sh.r = 0 := by rw [hrc, hR, hL, hc0]; rfl
+  have hr : s.sh.r = 0 := by rw [hrc, hR, hc0]; rfl
   have hg : s.sh.grp = false := by
     cases hgv : s.sh.grp
     · rfl
@@ -238,16 +255,36 @@ theorem rwlock_rlock_holder_waits_for_writer (n : Nat) (p : Bool) (sched : List 
   · rfl
   · have := h.grpI.mp hgv; omega
 
+/-- **What the rlock holder has read stays true** (nobody else touches the count while it holds rlock): at `*r += 1` the count
+    is 0 for the reader that has just taken the gate and positive for every other reader; at `if *r == 0` of `read_unlock` the
+    count is 0 exactly for the reader whose `*r -= 1` went to 0 – so the two stuck combinations of the model's `rck` step are
+    unreachable and the gate is released by exactly the last reader. -/
+theorem rwlock_last_reader_knows (n : Nat) (p : Bool) (sched : List (Nat × Env)) (t : Nat) (ht : t < n) :
+    (∀ o, (run (init n p) sched).pcs t = .rinc o true → (run (init n p) sched).sh.r = 0) ∧
+    (∀ o, (run (init n p) sched).pcs t = .rinc o false → 0 < (run (init n p) sched).sh.r) ∧
+    (∀ last, (run (init n p) sched).pcs t = .rck last → ((run (init n p) sched).sh.r = 0 ↔ last = true)) := by
+  have hk := lk_reach n p sched
+  have h := inv_reach n p sched
+  have hn : (run (init n p) sched).n = n := by simpa [init] using run_n (init n p) sched
+  generalize run (init n p) sched = s at *
+  have hkt := hk t (by omega)
+  have hnn : 0 ≤ s.sh.r := by have := h.rc; omega
+  refine ⟨?_, ?_, ?_⟩
+  · intro o hp; rw [hp] at hkt; simpa [loc] using hkt
+  · intro o hp; rw [hp] at hkt; simpa [loc] using hkt
+  · intro last hp; rw [hp] at hkt
+    cases last <;> simp [loc] at hkt ⊢ <;> omega
+
 /-- **No stranded reader or writer** (quiescence form of "blocked readers and writers all eventually get the lock"): in every
     reachable state in which every actor is idle or parked (on the gate or on rlock) – nobody is in the middle of an
-    operation –, all guards have been dropped (none of the drops cancelled) and somebody is parked, some parked actor already
+    operation –, all guards have been dropped and somebody is parked, some parked actor already
     holds its wake-up token: its park returns. The lock is not lost by an unlock racing a registration, by a cancellation
     racing a hand-over, with stale blockers of cancelled waiters in the queues, or between the two levels (a reader parked
     on the gate while holding rlock waits for a writer only). Under any fair scheduler: no `read()` / `write()` blocks for
     ever once the guards are dropped. -/
 theorem rwlock_no_stranded (n : Nat) (p : Bool) (sched : List (Nat × Env))
     (hq : ∀ t, t < n → quiet ((run (init n p) sched).pcs t) = true)
-    (hR : (run (init n p) sched).sh.RG = 0) (hW : (run (init n p) sched).sh.WG = 0) (hL : (run (init n p) sched).sh.lostR = 0)
+    (hR : (run (init n p) sched).sh.RG = 0) (hW : (run (init n p) sched).sh.WG = 0)
     (t0 : Nat) (ht0 : t0 < n) (hp0 : (run (init n p) sched).pcs t0 ≠ .idle) :
     ∃ t b, t < n ∧
       ((parkedGate ((run (init n p) sched).pcs t) = some b ∧ (run (init n p) sched).sh.g.tok b = true) ∨
@@ -345,7 +382,7 @@ theorem rwlock_no_stranded (n : Nat) (p : Bool) (sched : List (Nat × Env))
         · rfl
         · obtain ⟨b, hb⟩ := quiet_cntR _ (hq u (by omega)) hcu
           exact absurd ⟨u, b, by omega, hb⟩ hprl
-      have hr : s.sh.r = 0 := by rw [hrc, hR, hL, hc0]; rfl
+      have hr : s.sh.r = 0 := by rw [hrc, hR, hc0]; rfl
       have hpg : ∃ u b, u < n ∧ parkedGate (s.pcs u) = some b := by
         rcases quiet_cases _ (hq t0 ht0) with h0 | ⟨b, hb⟩ | ⟨b, hb⟩
         · exact absurd h0 hp0
@@ -354,24 +391,7 @@ theorem rwlock_no_stranded (n : Nat) (p : Bool) (sched : List (Nat × Env))
       obtain ⟨t, b, ht, hpt, htok⟩ := gate hr hpg
       exact ⟨t, b, ht, Or.inl ⟨hpt, htok⟩⟩
 
-/-- **Suspected defect F1c (model-level witness, not yet replayed on the real code – needs a coroutine and a cancel, i.e. live
-    mode)**: a read guard's drop that is *cancelled while it is blocked on rlock* (`read_unlock` → `rlock.lock()` →
-    `trigger_cancel_panic()` out of the destructor) never executes `*r -= 1`: everybody idle, no guard left, yet `r = 1` and the
-    gate stays held for the reader group for ever. This is exactly the case `lostR` accounts for in `rwlock_guards_balanced`
-    and that `rwlock_free_after_all_dropped` / `rwlock_no_stranded` exclude by `lostR = 0`.
-    Schedule: 0 takes a read guard; 1 enters `read()` and holds rlock; 0 drops its guard, registers on rlock, parks, is
-    cancelled; 1 finishes `read()` (handing the stale blocker's permit on), drops its guard. -/
-theorem rwlock_drop_cancelled_leaks : ∃ sched,
-    (run (init 2 false) sched).pcs 0 = .idle ∧ (run (init 2 false) sched).pcs 1 = .idle ∧
-    (run (init 2 false) sched).sh.RG = 0 ∧ (run (init 2 false) sched).sh.WG = 0 ∧
-    (run (init 2 false) sched).sh.r = 1 ∧ (run (init 2 false) sched).sh.lostR = 1 ∧ (run (init 2 false) sched).sh.g.cnt = 0 :=
-  ⟨[(0, .read), (0, .go), (0, .go), (0, .go), (0, .go), (0, .go), (0, .go),
-    (1, .read), (1, .go),
-    (0, .dropR), (0, .go), (0, .go), (0, .go), (0, .abort), (0, .go), (0, .go), (0, .go),
-    (1, .go), (1, .go), (1, .go), (1, .go), (1, .go), (1, .go), (1, .go), (1, .go),
-    (1, .dropR), (1, .go), (1, .go), (1, .go)], by decide⟩
-
-/-! ### the pinned tree before the fixes (`tstepG true`): negation witnesses
+/-! ### the pinned tree before the fixes F1a / F1b / F1c (`tstepG true`): negation witnesses
 
     Both schedules were replayed on the real code (harness family `rwlock_reg`, see /verif/pending_fixes/README-C12.md);
     on the fixed model the same schedules are harmless (examples below). -/
@@ -387,63 +407,75 @@ theorem rwlock_pinned_F1b_two_writers : ∃ sched, (runG true (init 2 true) sche
     the guard is dropped: `read_unlock` takes rlock and stands before `*r -= 1` with `r = 0` (debug build: panic
     "attempt to subtract with overflow", rlock poisoned, the gate is never released). -/
 theorem rwlock_pinned_F1a_underflow : ∃ sched,
-    (runG true (init 1 true) sched).pcs 0 = .rlp .dropR ∧ (runG true (init 1 true) sched).sh.r = 0 ∧
+    (runG true (init 1 true) sched).pcs 0 = .rdec ∧ (runG true (init 1 true) sched).sh.r = 0 ∧
     (runG true (init 1 true) sched).sh.res 0 = 2 ∧ (runG true (init 1 true) sched).sh.g.cnt = 0 :=
-  ⟨[(0, .tryRead), (0, .go), (0, .go), (0, .go), (0, .go), (0, .go), (0, .go), (0, .dropR), (0, .go)], by decide⟩
+  ⟨(0, .tryRead) :: gos 0 7 ++ [(0, .dropR), (0, .go), (0, .go)], by decide⟩
+
+/-- **pinned tree before fix F1c** (confirmed on the real code: live family `rwlock_live`, see pending_fixes/README-C12.md): a
+    read guard's drop that is *cancelled while it is blocked on rlock* (`read_unlock` → `rlock.lock()` → cancel panic out
+    of the destructor) never executes `*r -= 1`: everybody idle, no guard left, yet `r = 1` and the gate stays held for the
+    reader group for ever. Schedule: 0 takes a read guard; 1 enters `read()` and holds rlock; 0 drops its guard, registers on
+    rlock, parks, is cancelled; 1 finishes `read()` (handing the stale blocker's permit on) and drops its guard. -/
+theorem rwlock_pinned_F1c_drop_cancelled_leaks : ∃ sched,
+    (runG true (init 2 false) sched).pcs 0 = .idle ∧ (runG true (init 2 false) sched).pcs 1 = .idle ∧
+    (runG true (init 2 false) sched).sh.RG = 0 ∧ (runG true (init 2 false) sched).sh.WG = 0 ∧
+    (runG true (init 2 false) sched).sh.r = 1 ∧ (runG true (init 2 false) sched).sh.g.cnt = 0 :=
+  ⟨(0, .read) :: gos 0 8 ++ [(1, .read), (1, .go),
+    (0, .dropR), (0, .go), (0, .go), (0, .go), (0, .abort), (0, .go), (0, .go), (0, .go)] ++
+    gos 1 12 ++ (1, .dropR) :: gos 1 12, by decide⟩
+
+-- the same schedule on the fixed model: the cancel is ignored, the drop completes, the lock ends free
+example : (run (init 2 false) ((0, .read) :: gos 0 8 ++ [(1, .read), (1, .go),
+    (0, .dropR), (0, .go), (0, .go), (0, .go), (0, .abort), (0, .go), (0, .go), (0, .go)] ++
+    gos 1 12 ++ gos 0 12 ++ (1, .dropR) :: gos 1 12)).sh.g.cnt = 1 := by decide
+example : (run (init 2 false) ((0, .read) :: gos 0 8 ++ [(1, .read), (1, .go),
+    (0, .dropR), (0, .go), (0, .go), (0, .go), (0, .abort)])).pcs 0 = .rlk .dropR (.i6load 0) := by decide
 
 -- the same schedules on the fixed model: one write guard (actor 1 is parked on the gate) / the count is 1 at the decrement
 example : (run (init 2 true) [(0, .write), (1, .write), (0, .go), (1, .go), (0, .go), (1, .go), (1, .go), (0, .go), (1, .go)]).sh.WG = 1 := by decide
-example : (run (init 1 true) [(0, .tryRead), (0, .go), (0, .go), (0, .go), (0, .go), (0, .go), (0, .go), (0, .dropR), (0, .go)]).sh.r = 1 := by decide
+example : (run (init 1 true) ((0, .tryRead) :: gos 0 8 ++ [(0, .dropR), (0, .go), (0, .go)])).sh.r = 1 := by decide
+example : (run (init 1 true) ((0, .tryRead) :: gos 0 8 ++ [(0, .dropR), (0, .go), (0, .go)])).pcs 0 = .rdec := by decide
 
 /-! ### non-vacuity: the hypotheses / interesting branches are reachable -/
 
 -- a write guard exists (clean lock, Ok) / exists inside Poisoned (poisoned lock, result code 2)
-example : (run (init 2 false) [(0, .write), (0, .go), (0, .go), (0, .go)]).sh.WG = 1 := by decide
-example : (run (init 2 true) [(0, .write), (0, .go), (0, .go), (0, .go)]).sh.res 0 = 2 := by decide
+example : (run (init 2 false) ((0, .write) :: gos 0 3)).sh.WG = 1 := by decide
+example : (run (init 2 true) ((0, .write) :: gos 0 3)).sh.res 0 = 2 := by decide
 -- a panic while holding the write guard poisons; the next reader gets its guard inside Poisoned and it is counted
-example : (run (init 2 false) [(0, .write), (0, .go), (0, .go), (0, .go), (0, .dropW true), (0, .go), (0, .go),
-    (1, .read), (1, .go), (1, .go), (1, .go), (1, .go), (1, .go), (1, .go)]).sh.res 1 = 2 := by decide
-example : (run (init 2 false) [(0, .write), (0, .go), (0, .go), (0, .go), (0, .dropW true), (0, .go), (0, .go),
-    (1, .read), (1, .go), (1, .go), (1, .go), (1, .go), (1, .go), (1, .go)]).sh.RG = 1 := by decide
+example : (run (init 2 false) ((0, .write) :: gos 0 3 ++ (0, .dropW true) :: gos 0 3 ++ (1, .read) :: gos 1 8)).sh.res 1 = 2 := by decide
+example : (run (init 2 false) ((0, .write) :: gos 0 3 ++ (0, .dropW true) :: gos 0 3 ++ (1, .read) :: gos 1 8)).sh.RG = 1 := by decide
 -- two read guards at once (r = 2), a writer inside psn (rwlock_exclusive_inflight), an actor at the decrement of read_unlock
-example : (run (init 2 false) [(0, .read), (0, .go), (0, .go), (0, .go), (0, .go), (0, .go), (0, .go),
-    (1, .tryRead), (1, .go), (1, .go), (1, .go), (1, .go)]).sh.RG = 2 := by decide
+example : (run (init 2 false) ((0, .read) :: gos 0 8 ++ (1, .tryRead) :: gos 1 6)).sh.RG = 2 := by decide
+example : (run (init 2 false) ((0, .read) :: gos 0 8 ++ (1, .tryRead) :: gos 1 6)).sh.r = 2 := by decide
 example : (run (init 2 false) [(0, .write), (0, .go), (0, .go)]).pcs 0 = .psn .write := by decide
-example : (run (init 1 false) [(0, .read), (0, .go), (0, .go), (0, .go), (0, .go), (0, .go), (0, .go),
-    (0, .dropR), (0, .go)]).pcs 0 = .rlp .dropR := by decide
+example : (run (init 1 false) ((0, .read) :: gos 0 8 ++ [(0, .dropR), (0, .go), (0, .go)])).pcs 0 = .rdec := by decide
+-- the first reader between taking the gate and counting itself; the last reader between un-counting itself and releasing
+example : (run (init 1 false) ((0, .read) :: gos 0 5)).pcs 0 = .rinc .read true := by decide
+example : (run (init 1 false) ((0, .read) :: gos 0 8 ++ (0, .dropR) :: gos 0 3)).pcs 0 = .rck true := by decide
 -- a writer parks on the gate behind a reader and is handed the gate by the last reader's unlock (pop with a non-empty queue)
-example : parkedGate ((run (init 2 false) [(0, .read), (0, .go), (0, .go), (0, .go), (0, .go), (0, .go), (0, .go),
-    (1, .write), (1, .go), (1, .go), (1, .go)]).pcs 1) = some 0 := by decide
-example : (run (init 2 false) [(0, .read), (0, .go), (0, .go), (0, .go), (0, .go), (0, .go), (0, .go),
-    (1, .write), (1, .go), (1, .go), (1, .go),
-    (0, .dropR), (0, .go), (0, .go), (0, .go)]).pcs 0 = .gul .dropR (.w3pop .fin) := by decide
-example : (run (init 2 false) [(0, .read), (0, .go), (0, .go), (0, .go), (0, .go), (0, .go), (0, .go),
-    (1, .write), (1, .go), (1, .go), (1, .go),
-    (0, .dropR), (0, .go), (0, .go), (0, .go), (0, .go), (0, .go), (0, .go), (0, .go), (0, .go),
-    (1, .go), (1, .go)]).sh.WG = 1 := by decide
+example : parkedGate ((run (init 2 false) ((0, .read) :: gos 0 8 ++ (1, .write) :: gos 1 3)).pcs 1) = some 0 := by decide
+example : (run (init 2 false) ((0, .read) :: gos 0 8 ++ (1, .write) :: gos 1 3 ++
+    (0, .dropR) :: gos 0 5)).pcs 0 = .gul .dropR (.w3pop .fin) := by decide
+example : (run (init 2 false) ((0, .read) :: gos 0 8 ++ (1, .write) :: gos 1 3 ++
+    (0, .dropR) :: gos 0 12 ++ gos 1 2)).sh.WG = 1 := by decide
 -- a writer parked on the gate is cancelled after the gate was handed to it: it passes the gate on (duty), nobody twice
-example : (run (init 2 false) [(0, .write), (0, .go), (0, .go), (0, .go), (1, .write), (1, .go), (1, .go), (1, .go),
-    (0, .dropW false), (0, .go), (0, .go), (0, .go), (0, .go), (0, .go),
-    (1, .abort), (1, .go)]).sh.g.duty 0 = true := by decide
+example : (run (init 2 false) ((0, .write) :: gos 0 3 ++ (1, .write) :: gos 1 3 ++
+    (0, .dropW false) :: gos 0 5 ++ [(1, .abort), (1, .go)])).sh.g.duty 0 = true := by decide
 -- two actors in rlock sections is what `rwlock_rlock_sections_exclusive` excludes: one is reachable
 example : inRlock ((run (init 2 false) [(0, .read), (0, .go), (0, .go)]).pcs 0) = true := by decide
-
 -- rwlock_free_after_all_dropped: a history with a poisoning panic, a guard recovered from Poisoned and a hand-over ends free
-example : (run (init 2 false) [(0, .write), (0, .go), (0, .go), (0, .go), (1, .read), (1, .go), (1, .go), (1, .go), (1, .go), (1, .go), (1, .go),
-    (0, .dropW true), (0, .go), (0, .go), (0, .go), (0, .go), (0, .go), (0, .go),
-    (1, .go), (1, .go), (1, .go), (1, .go), (1, .dropR), (1, .go), (1, .go), (1, .go), (1, .go), (1, .go)]).sh.g.cnt = 1 := by decide
-example : (run (init 2 false) [(0, .write), (0, .go), (0, .go), (0, .go), (1, .read), (1, .go), (1, .go), (1, .go), (1, .go), (1, .go), (1, .go),
-    (0, .dropW true), (0, .go), (0, .go), (0, .go), (0, .go), (0, .go), (0, .go),
-    (1, .go), (1, .go), (1, .go), (1, .go), (1, .dropR), (1, .go), (1, .go), (1, .go), (1, .go), (1, .go)]).pcs 1 = .idle := by decide
+example : (run (init 2 false) ((0, .write) :: gos 0 3 ++ (1, .read) :: gos 1 7 ++
+    (0, .dropW true) :: gos 0 8 ++ gos 1 6 ++ (1, .dropR) :: gos 1 8)).sh.g.cnt = 1 := by decide
+example : (run (init 2 false) ((0, .write) :: gos 0 3 ++ (1, .read) :: gos 1 7 ++
+    (0, .dropW true) :: gos 0 8 ++ gos 1 6 ++ (1, .dropR) :: gos 1 8)).pcs 1 = .idle := by decide
+example : (run (init 2 false) ((0, .write) :: gos 0 3 ++ (1, .read) :: gos 1 7 ++
+    (0, .dropW true) :: gos 0 8 ++ gos 1 6 ++ (1, .dropR) :: gos 1 8)).sh.res 1 = 0 := by decide
 -- rwlock_rlock_holder_waits_for_writer / rwlock_no_stranded: a reader holding rlock is parked on the gate behind a writer; after the
 -- writer's guard is dropped everybody is quiet, one actor is parked, and it holds its token
-example : waitsGate ((run (init 2 false) [(0, .write), (0, .go), (0, .go), (0, .go),
-    (1, .read), (1, .go), (1, .go), (1, .go), (1, .go), (1, .go)]).pcs 1) = true := by decide
-example : quiet ((run (init 2 false) [(0, .write), (0, .go), (0, .go), (0, .go),
-    (1, .read), (1, .go), (1, .go), (1, .go), (1, .go), (1, .go),
-    (0, .dropW false), (0, .go), (0, .go), (0, .go), (0, .go), (0, .go)]).pcs 1) = true := by decide
-example : (run (init 2 false) [(0, .write), (0, .go), (0, .go), (0, .go),
-    (1, .read), (1, .go), (1, .go), (1, .go), (1, .go), (1, .go),
-    (0, .dropW false), (0, .go), (0, .go), (0, .go), (0, .go), (0, .go)]).sh.g.tok 0 = true := by decide
+example : waitsGate ((run (init 2 false) ((0, .write) :: gos 0 3 ++ (1, .read) :: gos 1 7)).pcs 1) = true := by decide
+example : quiet ((run (init 2 false) ((0, .write) :: gos 0 3 ++ (1, .read) :: gos 1 7 ++
+    (0, .dropW false) :: gos 0 5)).pcs 1) = true := by decide
+example : (run (init 2 false) ((0, .write) :: gos 0 3 ++ (1, .read) :: gos 1 7 ++
+    (0, .dropW false) :: gos 0 5)).sh.g.tok 0 = true := by decide
 
 end MayVerif.RwLock
